@@ -1348,12 +1348,35 @@ func (c *compiler) checkIdentifierLName(name unistring.String, offset int) {
 func (c *compiler) enterDummyMode() (leaveFunc func()) {
 	savedBlock, savedProgram := c.block, c.p
 	if savedBlock != nil {
-		c.block = &block{
-			typ:      savedBlock.typ,
-			label:    savedBlock.label,
-			outer:    savedBlock.outer,
-			breaking: savedBlock.breaking,
+		// Copy the whole chain of enclosing blocks, not just the innermost one: a break / continue compiled
+		// in dummy mode records the position of its jump placeholder (a position in the dummy program) in
+		// its TARGET block. If that block were a live one, leaveBlock() would later patch this position in
+		// the real code.
+		copies := make(map[*block]*block)
+		var last *block
+		for b := savedBlock; b != nil; b = b.outer {
+			nb := &block{
+				typ:        b.typ,
+				label:      b.label,
+				cont:       b.cont,
+				needResult: b.needResult,
+			}
+			copies[b] = nb
+			if last != nil {
+				last.outer = nb
+			}
+			last = nb
 		}
+		for b, nb := range copies {
+			if b.breaking != nil {
+				if bb := copies[b.breaking]; bb != nil {
+					nb.breaking = bb
+				} else {
+					nb.breaking = &block{typ: b.breaking.typ, label: b.breaking.label, needResult: b.breaking.needResult}
+				}
+			}
+		}
+		c.block = copies[savedBlock]
 	}
 	c.p = &Program{
 		src: c.p.src,
